@@ -595,6 +595,7 @@ func (c *Ctx) enterLoop(fr *Frame, li *loopInfo, st *State) {
 	// 3. assume invariants
 	for _, cl := range invs {
 		env := c.specEnv(fr, st, fr.entry, hdr)
+		env.pos = true
 		g := c.specBool(env, cl.Expr)
 		c.assume(st.reach, g)
 	}
